@@ -157,6 +157,11 @@ def in_domain(text, ctx):
 
 
 def check(case, ctx):
+    from yv import fuzzphase
+    if fuzzphase.note_stats(case, ctx):
+        return
+    if 'fuzz' in case:
+        case = {'model': fuzzphase.model_of(case), 'text': case['text'], 'src': 'fuzz'}
     m = models.build(case['model'])
     text = case['text']
     ok, node = in_domain(text, ctx)
@@ -195,4 +200,8 @@ def check(case, ctx):
 
 def phases(tier):
     n = 250 if tier != 'thorough' else 5000
-    return [HypPhase('models_x_texts', cases(), n)]
+    ph = [HypPhase('models_x_texts', cases(), n)]
+    if tier == 'thorough':
+        from yv import fuzzphase
+        ph.append(fuzzphase.fuzz_phase('C08', 400000))
+    return ph
